@@ -113,6 +113,11 @@ impl Property for C01 {
     fn quick_cases(&self) -> u64 {
         64_000
     }
+    fn states_termination(&self) -> bool {
+        // generated programs terminate by construction (and the VM has a budget): a case that does
+        // not produce an outcome cannot equal the reference outcome
+        true
+    }
     fn describe(&self, bytes: &[u8]) -> J {
         program_json(&decode(bytes))
     }
